@@ -59,6 +59,11 @@ pub struct WritersCase {
     /// due at once, while the settings frame is still buffered) - one more writer, inside the session
     #[serde(default)]
     pub monitor: Option<u8>,
+    /// every task that opens a stream waits, right after open_stream, until all of them have opened
+    /// theirs (a burst of callers on a brand-new session: the pending buffer holds all their SYNs
+    /// before the first destination write flushes it)
+    #[serde(default)]
+    pub open_barrier: bool,
 }
 
 pub struct WritersFam;
@@ -93,6 +98,7 @@ pub fn run_concurrent(case: &WritersCase) -> Result<ConcRun, Fail> {
     let seed = case.draw_seed;
     let stall = case.stall;
     let monitor = case.monitor;
+    let open_barrier = case.open_barrier;
     run_virtual(async move {
         install_draw(seed);
         let sched = install_schedule(yields);
@@ -138,9 +144,12 @@ pub fn run_concurrent(case: &WritersCase) -> Result<ConcRun, Fail> {
             Some(Ok(Ok(()))) => {}
             other => return Err(Fail::new("C11.api", "C11.api:start_client", format!("start_client: {:?}", other))),
         }
+        let openers = tasks.iter().filter(|t| t.opens).count();
+        let barrier = std::sync::Arc::new(tokio::sync::Barrier::new(openers.max(1)));
         for (ti, plan) in tasks.iter().cloned().enumerate() {
             let sess = sess.clone();
             let log = subs[ti].clone();
+            let barrier = barrier.clone();
             handles.push(tokio::spawn(async move {
                 for _ in 0..plan.start_yields {
                     tokio::task::yield_now().await;
@@ -153,6 +162,9 @@ pub fn run_concurrent(case: &WritersCase) -> Result<ConcRun, Fail> {
                     sid = st.id();
                     log.lock().unwrap().push(RFrame::ctl(rc::SYN, sid));
                     stream = Some(st);
+                    if open_barrier {
+                        barrier.wait().await;
+                    }
                     sess.disable_buffering();
                 }
                 let mut off = 0u64;
@@ -352,6 +364,7 @@ impl Family for WritersFam {
                 draw_seed,
                 stall,
                 monitor,
+                open_barrier: false,
             })
             .boxed()
     }
@@ -373,6 +386,23 @@ impl Family for WritersFam {
                     draw_seed: k as u64,
                     stall: None,
                     monitor: if k % 3 == 2 { Some(1) } else { None },
+                    open_barrier: false,
+                });
+            }
+        }
+        // a crowd on a brand-new session: 20, 70 and 150 callers have all opened their stream before the
+        // first of them writes its destination
+        for n in [20usize, 70, 150] {
+            for scheme in [SchemeSel::Default, SchemeSel::Stop0] {
+                v.push(WritersCase {
+                    scheme,
+                    tasks: (0..n).map(|i| TaskPlan { opens: true, ops: vec![TOp::Frame(7 + i % 5)], start_yields: 0 }).collect(),
+                    c2s: PipeParams::default(),
+                    yields: vec![],
+                    draw_seed: n as u64,
+                    stall: None,
+                    monitor: None,
+                    open_barrier: true,
                 });
             }
         }
@@ -392,6 +422,7 @@ impl Family for WritersFam {
         out.class_if(case.c2s.capacity <= 64, "transport-pending");
         out.class_if(case.stall.is_some_and(|s| s.1 >= 11), "transport-stalled>10s");
         out.class_if(case.monitor.is_some(), "keep-alive-monitor-running");
+        out.class_if(case.open_barrier && case.tasks.len() >= 70, "crowd-of->=70-openers-before-the-first-flush");
         out.class_if(case.tasks.iter().any(|t| t.ops.iter().any(|o| matches!(o, TOp::Send(_)))), "send_data");
         Ok(out)
     }
